@@ -59,11 +59,13 @@ type scenario struct {
 	ADisk, BDisk   []byte // on-disk form produced by the real Loader
 	ACanon, BCanon []byte
 	Dir            string // holds a.json / b.json and the per-run directories
+	Cs             []variant // sessions for a second save after a crash
 }
 
 // state class of the session file after a crash.
 type verdict struct {
-	Class  string // old new empty-file missing corrupt not-found wrong-data
+	Class   string // old new new2 empty-file missing corrupt not-found wrong-data
+	Variant string // for new2: which second-save session
 	Err    string
 	Len    int
 	Prefix string
@@ -84,6 +86,8 @@ func (s *scenario) classifyFile(path string) verdict {
 		v.Class = "old"
 	case err == nil && data != nil && bytes.Equal(canon(data), s.BCanon):
 		v.Class = "new"
+	case err == nil && data != nil && s.matchVariant(canon(data)) != "":
+		v.Class, v.Variant = "new2", s.matchVariant(canon(data))
 	case err == nil:
 		v.Class = "wrong-data"
 	case os.IsNotExist(rerr):
@@ -96,6 +100,15 @@ func (s *scenario) classifyFile(path string) verdict {
 		v.Class = "corrupt"
 	}
 	return v
+}
+
+func (s *scenario) matchVariant(cn []byte) string {
+	for _, v := range s.Cs {
+		if bytes.Equal(cn, v.Canon) {
+			return v.Name
+		}
+	}
+	return ""
 }
 
 func clip(s string, n int) string {
@@ -124,6 +137,8 @@ type killResult struct {
 	CrossChecked bool
 	CrossDiff    string
 	Leftover     int
+	Resaves      []resaveResult
+	ResaveErr    string
 }
 
 // size pairs that get real kill runs in the quick tier (all pairs in the thorough tier; the replay always covers all pairs)
@@ -148,12 +163,19 @@ func childEnv() []string {
 
 // runStrace runs the save child under strace; returns the trace log, the child's stderr and whether the watchdog fired.
 func runStrace(self string, extra []string, dataDir, fsDir, tracePath, stderrPath string) (timedOut bool, err error) {
-	os.RemoveAll(fsDir)
-	if err := os.MkdirAll(fsDir, 0o755); err != nil {
+	return runStraceMode(self, "save", nil, extra, dataDir, fsDir, tracePath, stderrPath)
+}
+
+// runStraceMode: prep == nil starts from an empty directory, otherwise from the given directory state.
+func runStraceMode(self, mode string, prep dirState, extra []string, dataDir, fsDir, tracePath, stderrPath string) (timedOut bool, err error) {
+	if prep == nil {
+		prep = dirState{}
+	}
+	if err := materialise(fsDir, prep); err != nil {
 		return false, err
 	}
 	args := append([]string{"-f", "-xx", "-o", tracePath}, extra...)
-	args = append(args, self, "--child", "save", dataDir, fsDir)
+	args = append(args, self, "--child", mode, dataDir, fsDir)
 	cmd := exec.Command(stracePath, args...)
 	cmd.Env = childEnv()
 	se, err := os.Create(stderrPath)
@@ -418,6 +440,10 @@ func runC31(c *mon.Ctx) {
 		"plus the first call after the save, one run is killed by strace (SIGKILL injected on entry to that call, verified in the kill run's own trace) and the surviving file is read by the real Loader in the parent. " +
 		"(2) offline replay (all pairs) of the recorded calls with the recorded bytes on a model filesystem: every call boundary, every write cut at 1 / half / n-1 / first-page / last-page bytes " +
 		"(thorough: also every 4 KiB boundary and 64 random byte counts), and for boundaries and basic cuts all power-loss states of the model. " +
+		"(3) crash-then-save-again histories: every distinct directory state a crash of save #1 left behind (session file + leftover temporary files of size 0 / partial / full; " +
+		"from the real kills, the replayed process-crash states and the power-loss directory states) is materialised and a second save of session C (shorter than any B / exactly len(B) / longer) is run on it by the real code: " +
+		"a completed save must load as C, a failed one must leave complete old/new; for a sample (quick: pair min>300k, states 'full leftover' and 'half-written leftover', shorter C; thorough: all pairs) " +
+		"the second save is itself killed at its system calls and must leave complete A, B or C. " +
 		"Every state's bytes are judged by the real Loader: complete old or complete new session, anything else is a violation. " +
 		"distinct non-trivial = distinct (size pair, monitor, crash point[, cut / durable-state choice]); exhaustive = the system-call boundaries of the recorded save, per size pair.")
 	c.Assume("process-crash model: SIGKILL leaves the page cache intact; strace signal injection on syscall entry prevents that call from executing (cross-checked: every killed run's file equals the model state before the call)")
@@ -457,6 +483,7 @@ func runC31(c *mon.Ctx) {
 			r := c.RandN("c31-session", i*len(sizes)+j)
 			s := &scenario{Name: sa.name + ">" + sb.name, A: genData(r, sa.target), B: genData(r, sb.target)}
 			s.ADisk, s.BDisk, s.ACanon, s.BCanon = onDisk(s.A), onDisk(s.B), canon(s.A), canon(s.B)
+			s.makeVariants(r)
 			s.Dir = filepath.Join(out, fmt.Sprintf("sc%02d", len(scs)))
 			scs = append(scs, s)
 		}
@@ -474,11 +501,39 @@ func runC31(c *mon.Ctx) {
 		states      int
 		killRuns    int
 		killSkipped int
+		rsMu        sync.Mutex
+		rsSeen      = map[string]bool{}
+		rsOut       = map[string]int{}
+		rsErrors    int
+		rsStates    int
+		rsCapped    int
+		bestLeft    = map[*scenario]dirState{} // real-kill state with the largest leftover temporary file
+		partLeft    = map[*scenario]dirState{} // replayed state with a partially written leftover
 		sawSeq      = map[string]int{}
 	)
 	workers := 6
 	sem := make(chan struct{}, workers)
 	var wg sync.WaitGroup
+
+	// second saves on crash states: completed save must load as C, failed save must leave old/new intact
+	reportResave := func(s *scenario, model, origin string, rr resaveResult) {
+		rsStates++
+		c.Eval(1)
+		c.Distinct(fmt.Sprintf("%s|%s|resave|%s|%s", s.Name, model, rr.State, rr.Variant))
+		outcome := rr.V.Class
+		if rr.SaveErr != "" {
+			rsErrors++
+			outcome = "save-error+" + rr.V.Class
+		}
+		rsOut[model+"/"+outcome]++
+		w := map[string]any{"monitor": "crash-then-save-again", "model": model, "scenario": s.Name, "old_len": len(s.ADisk), "new_len": len(s.BDisk),
+			"first_save_stopped": origin, "directory_after_crash": rr.State, "second_save": rr.Variant, "second_len": rr.CLen, "second_save_error": rr.SaveErr,
+			"file_class": rr.V.Class, "file_len": rr.V.Len, "file_prefix": rr.V.Prefix, "loader_error": rr.V.Err}
+		c.Sample("resave/"+model+"/"+outcome, w)
+		if rr.Bad {
+			c.Violate(model+"|resave|"+outcome, w)
+		}
+	}
 
 	// ---- dry runs (all size pairs, in parallel): everything traced, full write data ----
 	type dryOut struct {
@@ -599,22 +654,12 @@ func runC31(c *mon.Ctx) {
 			allRes = append(allRes, res)
 			// quick tier: complete enumeration for the same-size pair; for the other pairs a kill point is
 			// skipped when only state-neutral calls (fcntl, epoll_ctl, stat ...) completed since the previous one
-			full := !c.Quick() || s.Name == "4k>4k"
-			prevWin := 0
+			keep := selectPoints(dry, !c.Quick() || s.Name == "4k>4k")
 			for pi, kp := range dry.Points {
-				if !full && pi > 0 && pi < len(dry.Points)-1 {
-					changed := false
-					for wi := prevWin; wi < kp.WinIdx && wi < len(dry.Window); wi++ {
-						if n := dry.Window[wi].Name; !noiseCalls[n] && !benignCalls[n] {
-							changed = true
-						}
-					}
-					if !changed {
-						killSkipped++
-						continue
-					}
+				if !keep[pi] {
+					killSkipped++
+					continue
 				}
-				prevWin = kp.WinIdx
 				wg.Add(1)
 				sem <- struct{}{}
 				go func(s *scenario, pi int, kp killPoint) {
@@ -646,11 +691,38 @@ func runC31(c *mon.Ctx) {
 								r.CrossDiff = fmt.Sprintf("real exists=%v len=%d, model exists=%v len=%d", rerr == nil, len(raw), ex, len(want))
 							}
 						}
-						ents, _ := os.ReadDir(kfs)
-						for _, e := range ents {
-							if e.Name() != targetName {
+						st := readDirState(kfs)
+						maxLeft := -1
+						for n, b := range st {
+							if n != targetName {
 								r.Leftover++
+								if len(b) > maxLeft {
+									maxLeft = len(b)
+								}
 							}
+						}
+						rsMu.Lock()
+						k := s.Name + "|process-crash|" + st.key()
+						seen := rsSeen[k]
+						rsSeen[k] = true
+						if maxLeft >= 0 {
+							cur, curMax := bestLeft[s], -1
+							for n, b := range cur {
+								if n != targetName && len(b) > curMax {
+									curMax = len(b)
+								}
+							}
+							if maxLeft > curMax {
+								bestLeft[s] = st
+							}
+						}
+						rsMu.Unlock()
+						if !seen {
+							rs, err := s.resaveAll(filepath.Join(s.Dir, "rs-"+tag), st)
+							if err != nil {
+								r.ResaveErr = err.Error()
+							}
+							r.Resaves = rs
 						}
 						os.Remove(ktrace)
 					}
@@ -732,6 +804,24 @@ func runC31(c *mon.Ctx) {
 					}
 				})
 			}
+			resaveState := func(model, point, sub string, files map[string][]byte) {
+				st := dirState(files)
+				k := s.Name + "|replay-" + model + "|" + st.key()
+				rsMu.Lock()
+				seen := rsSeen[k]
+				rsSeen[k] = true
+				rsMu.Unlock()
+				if seen {
+					return
+				}
+				rs, err := s.resaveAll(filepath.Join(s.Dir, "rs-replay"), st)
+				if err != nil {
+					c.Inconclusive(s.Name + ": second save on a replayed state: " + err.Error())
+				}
+				for _, rr := range rs {
+					deferred = append(deferred, func() { reportResave(s, model, "offline-replay: "+point+"; "+sub, rr) })
+				}
+			}
 			for p := 0; p <= len(dry.Ops); p++ {
 				point := fmt.Sprintf("after %d/%d calls", p, len(dry.Ops))
 				if p < len(dry.Ops) {
@@ -754,11 +844,27 @@ func runC31(c *mon.Ctx) {
 					}
 					data, ex := fs.Volatile(target)
 					emit("process-crash", point, sub, data, ex)
+					vd := fs.VolatileDir(fsDir)
+					resaveState("process-crash", point, sub, vd)
+					if cut >= 0 && cut == int(dry.Ops[p].Ret)/2 && partLeft[s] == nil {
+						for n, b := range vd {
+							if n != targetName && len(b) > 0 && len(b) < len(s.BDisk) {
+								partLeft[s] = dirState(vd)
+							}
+						}
+					}
 					if cut >= 0 && !basic(int(dry.Ops[p].Ret))[cut] {
 						continue
 					}
 					for _, ds := range fs.PowerLossStates(target, splitsBasic) {
 						emit("power-loss", point, sub+"; "+ds.Desc, ds.Data, ds.Exists)
+					}
+					dss, capped := fs.PowerLossDirStates(fsDir, splitsBasic, 64)
+					if capped {
+						rsCapped++
+					}
+					for _, ds := range dss {
+						resaveState("power-loss", point, sub, ds.Files)
 					}
 				}
 			}
@@ -799,6 +905,128 @@ func runC31(c *mon.Ctx) {
 			if r.V.Class != "old" && r.V.Class != "new" {
 				c.Violate("process-crash|"+r.V.Class, w)
 			}
+			if r.ResaveErr != "" {
+				c.Inconclusive(where + ": second save: " + r.ResaveErr)
+			}
+			for _, rr := range r.Resaves {
+				reportResave(s, "process-crash", "real kill on entry to "+kp.Text, rr)
+			}
+		}
+	}
+
+	// ---- crash points of the SECOND save (sample): start state = a crash state of save #1 with a leftover temporary file ----
+	type hist struct {
+		s      *scenario
+		st     dirState
+		origin string
+		dry    *dryRun
+		res    []*killResult
+	}
+	var hists []*hist
+	for _, s := range scs {
+		if c.Quick() && s.Name != "min>300k" {
+			continue
+		}
+		if st := bestLeft[s]; st != nil {
+			hists = append(hists, &hist{s: s, st: st, origin: "real kill of save #1"})
+		}
+		if st := partLeft[s]; st != nil {
+			hists = append(hists, &hist{s: s, st: st, origin: "replayed cut write of save #1"})
+		}
+	}
+	for hi, h := range hists {
+		wg.Add(1)
+		sem <- struct{}{}
+		go func(hi int, h *hist) {
+			defer wg.Done()
+			s := h.s
+			hdir := filepath.Join(s.Dir, fmt.Sprintf("h%d", hi))
+			os.MkdirAll(hdir, 0o755)
+			os.WriteFile(filepath.Join(hdir, "c.json"), s.Cs[0].Canon, 0o600)
+			fsDir := filepath.Join(hdir, "fs-dry")
+			tracePath, stderrPath := filepath.Join(hdir, "dry.trace"), filepath.Join(hdir, "dry.stderr")
+			to, err := runStraceMode(self, "resave", h.st, []string{"-s", "8388608"}, hdir, fsDir, tracePath, stderrPath)
+			<-sem
+			se, _ := os.ReadFile(stderrPath)
+			m := reTID.FindSubmatch(se)
+			if err != nil || to || m == nil || !bytes.Contains(se, []byte(mark2)) {
+				return // a failing second save is judged by the completion runs; nothing to enumerate here
+			}
+			tid, _ := strconv.Atoi(string(m[1]))
+			tl, err := parseTrace(tracePath)
+			os.Remove(tracePath)
+			if err != nil {
+				return
+			}
+			dry, err := analyseDry(tl, tid, fsDir)
+			if err != nil {
+				return
+			}
+			h.dry = dry
+			h.res = make([]*killResult, len(dry.Points))
+			keep := selectPoints(dry, !c.Quick())
+			var wg2 sync.WaitGroup
+			for pi, kp := range dry.Points {
+				if !keep[pi] {
+					continue
+				}
+				wg2.Add(1)
+				sem <- struct{}{}
+				go func(pi int, kp killPoint) {
+					defer wg2.Done()
+					defer func() { <-sem }()
+					r := &killResult{S: s, KP: kp, WinLen: len(dry.Window)}
+					tag := fmt.Sprintf("k%02d", pi)
+					kfs := filepath.Join(hdir, "fs-"+tag)
+					ktrace, kstderr := filepath.Join(hdir, tag+".trace"), filepath.Join(hdir, tag+".stderr")
+					for attempt := 0; attempt < 2; attempt++ {
+						r.Why = ""
+						to, err := runStraceMode(self, "resave", h.st, []string{"-e", "trace=" + kp.Name, "-e", fmt.Sprintf("inject=%s:signal=KILL:when=%d", kp.Name, kp.Ordinal)},
+							hdir, kfs, ktrace, kstderr)
+						if err != nil || to {
+							r.Why = fmt.Sprintf("kill run failed (timeout=%v err=%v)", to, err)
+							continue
+						}
+						if r.Why = verifyKill(ktrace, kstderr, kp); r.Why == "" {
+							break
+						}
+					}
+					if r.Why == "" {
+						r.V = s.classifyFile(filepath.Join(kfs, targetName))
+						os.Remove(ktrace)
+					}
+					os.RemoveAll(kfs)
+					h.res[pi] = r
+				}(pi, kp)
+			}
+			wg2.Wait()
+		}(hi, h)
+	}
+	wg.Wait()
+	hKills := 0
+	hOut := map[string]int{}
+	for _, h := range hists {
+		for _, r := range h.res {
+			if r == nil {
+				continue
+			}
+			kp, s := r.KP, r.S
+			where := fmt.Sprintf("%s second save (after %s; %s) kill at %s#%d", s.Name, h.origin, h.st.describe(s), kp.Name, kp.Ordinal)
+			if r.Why != "" {
+				c.Inconclusive(where + ": " + r.Why)
+				continue
+			}
+			hKills++
+			c.Eval(1)
+			c.Distinct(fmt.Sprintf("%s|resave-kill|%s|%d:%s", s.Name, h.st.describe(s), kp.WinIdx, kp.Name))
+			hOut[r.V.Class]++
+			w := map[string]any{"monitor": "real-kill of the second save", "scenario": s.Name, "first_save_stopped": h.origin, "directory_after_first_crash": h.st.describe(s),
+				"second_save": "shorter", "second_len": len(s.Cs[0].Disk), "killed_on_entry_to": kp.Text, "last_completed_call": kp.Prev,
+				"file_class": r.V.Class, "file_len": r.V.Len, "file_prefix": r.V.Prefix, "loader_error": r.V.Err}
+			c.Sample("resave-kill/"+r.V.Class, w)
+			if r.V.Class != "old" && r.V.Class != "new" && r.V.Class != "new2" {
+				c.Violate("process-crash|resave-crash|"+r.V.Class, w)
+			}
 		}
 	}
 
@@ -806,6 +1034,13 @@ func runC31(c *mon.Ctx) {
 		f()
 	}
 
+	c.Set("resave_runs", rsStates)
+	c.Set("resave_outcomes", rsOut)
+	c.Set("resave_save_errors", rsErrors)
+	c.Set("resave_power_loss_state_products_capped", rsCapped)
+	c.Set("second_save_crash_histories", len(hists))
+	c.Set("second_save_kill_runs", hKills)
+	c.Set("second_save_kill_outcomes", hOut)
 	c.Set("scenarios", len(scs))
 	c.Set("phase_seconds", map[string]float64{"dry_runs": tDry.Seconds(), "replay": tRep.Seconds(), "waiting_for_kill_runs": tWait.Seconds()})
 	c.Set("real_kill_runs", killRuns)
@@ -824,6 +1059,29 @@ func runC31(c *mon.Ctx) {
 	if states == 0 {
 		c.Inconclusive("offline replay produced no crash states")
 	}
+}
+
+// selectPoints: all kill points (full) or only those before which a state-changing call completed
+// since the previously kept one (first and last are always kept).
+func selectPoints(dry *dryRun, full bool) []bool {
+	keep := make([]bool, len(dry.Points))
+	prevWin := 0
+	for pi, kp := range dry.Points {
+		if !full && pi > 0 && pi < len(dry.Points)-1 {
+			changed := false
+			for wi := prevWin; wi < kp.WinIdx && wi < len(dry.Window); wi++ {
+				if n := dry.Window[wi].Name; !noiseCalls[n] && !benignCalls[n] {
+					changed = true
+				}
+			}
+			if !changed {
+				continue
+			}
+		}
+		prevWin = kp.WinIdx
+		keep[pi] = true
+	}
+	return keep
 }
 
 // verifyKill checks in the kill run's own trace that the process was killed on
